@@ -1,6 +1,7 @@
 import TrucModel.Model.Replay
 import TrucModel.Model.VecConvert
 import TrucModel.Model.Gen
+import TrucModel.Model.Machine
 /-
   Line-protocol driver (channel L): one request per line on stdin, one answer per line on stdout.
 -/
@@ -90,10 +91,218 @@ def run (toks : List String) : String :=
   | _ => "bad-op"
 end V
 
+/-! ### channel X -/
+namespace X
+open Truc.Gen Truc.Mach
+
+def droppable (ty : String) : Bool := ["H", "O3", "Z", "Z8", "A16"].contains ty
+def isZst (ty : String) : Bool := ty == "Z" || ty == "Z8"
+
+structure XS where
+  specs : List Spec := []
+  cap : Nat := 0
+  align : Nat := 1
+  regs : List (Nat × Nat × Buf) := []      -- register, variant, buffer
+
+def valStr (v : Val) : String := if isZst v.ty then v.ty else if v.id = 0 then "?" else toString v.id
+def dropStr (v : Val) : String := if isZst v.ty then v.ty else s!"{v.ty}{v.id}"
+def sortedJoin (l : List String) : String := ",".intercalate (l.toArray.qsort (· < ·)).toList
+def accStr (a : List Access) : String := sortedJoin (a.map fun (k, o, t) => s!"{k}:{o}:{t}")
+def outLine (res : String) (drops : List Val) (acc : List Access) : String :=
+  s!"{res} | d={sortedJoin (drops.map dropStr)} | a={accStr acc}"
+
+def parseVals (s : String) : List Nat := if s == "-" then [] else (s.splitOn ",").filterMap String.toNat?
+
+def getReg (xs : XS) (r : Nat) : Option (Nat × Buf) := (xs.regs.find? (fun p => p.1 == r)).map (·.2)
+def setReg (xs : XS) (r v : Nat) (b : Buf) : XS := { xs with regs := (r, v, b) :: xs.regs.filter (fun p => p.1 != r) }
+def delReg (xs : XS) (r : Nat) : XS := { xs with regs := xs.regs.filter (fun p => p.1 != r) }
+
+def cloneVal (v : Val) : Val := if droppable v.ty && !isZst v.ty then { v with id := v.id + 1000000 } else v
+
+def errStr : MErr → String
+  | .oob => "oob" | .storeOverOwned => "store-over-owned" | .readMoved => "read-moved"
+  | .noBuffer => "no-buffer" | .missingField => "missing-field" | .doubleFree => "double-free"
+
+/-- run the full constructor of `sp` on the given field values -/
+def construct (xs : XS) (sp : Spec) (uninit : Bool) (vals : List Val) : Except MErr St :=
+  let ds := if uninit then sp.data.filter (fun d => !d.uninit) else sp.data
+  let st : St := { args := [("from", (ds.map (·.name)).zip vals)] }
+  call droppable xs.cap (if uninit then ctorNewUninit sp else ctorNew sp) st
+
+def run (xs : XS) (toks : List String) : XS × String :=
+  let fail (e : MErr) := (xs, s!"machine-error {errStr e}")
+  match toks with
+  | ["sizes"] =>
+    let sz := (xs.cap + xs.align - 1) / xs.align * xs.align
+    (xs, outLine s!"sizes {",".intercalate (xs.specs.map fun _ => s!"{sz}/{xs.align}")}" [] [])
+  | ["place", _, _] => (xs, outLine "ok" [] [])
+  | ["rename", a, b] =>
+    match a.toNat?, b.toNat? with
+    | some a, some b => match getReg xs a with
+      | some (v, buf) => (setReg (delReg xs a) b v buf, outLine "ok" [] [])
+      | none => (xs, "bad-op")
+    | _, _ => (xs, "bad-op")
+  | [kind, v, r, vals] =>
+    if kind == "new" || kind == "newu" then
+      match v.toNat?, r.toNat? with
+      | some v, some r =>
+        match xs.specs[v]? with
+        | none => (xs, "bad-op")
+        | some sp =>
+          let uninit := kind == "newu"
+          let ds := if uninit then sp.data.filter (fun d => !d.uninit) else sp.data
+          let vs := (ds.zip (parseVals vals)).map fun (d, n) => (⟨n, d.ty⟩ : Val)
+          match construct xs sp uninit vs with
+          | .error e => fail e
+          | .ok st => match st.result with
+            | .record b => (setReg xs r v b, outLine "ok" st.drops st.acc)
+            | _ => (xs, "machine-error no-result")
+      | _, _ => (xs, "bad-op")
+    else if kind == "set" then
+      match v.toNat?, r.toNat?, vals.toNat? with
+      | some reg, some fi, some nv =>
+        match getReg xs reg with
+        | none => (xs, "bad-op")
+        | some (vv, b) =>
+          match (xs.specs[vv]?).bind (fun sp => sp.data[fi]?) with
+          | none => (xs, "bad-op")
+          | some d =>
+            match call droppable xs.cap ⟨"", [.getMut d]⟩ { self_ := some b } with
+            | .error e => fail e
+            | .ok st =>
+              let (b', old) := b.assign droppable d ⟨nv, d.ty⟩
+              (setReg xs reg vv b', outLine "ok" (st.drops ++ old) st.acc)
+      | _, _, _ => (xs, "bad-op")
+    else if kind == "serde" then
+      -- [serde, fmt, reg, newreg]
+      match r.toNat?, vals.toNat? with
+      | some reg, some nr =>
+        match getReg xs reg with
+        | none => (xs, "bad-op")
+        | some (vv, b) =>
+          match xs.specs[vv]? with
+          | none => (xs, "bad-op")
+          | some sp =>
+            let gets1 := sp.data.map fun d => (("get", d.offset, d.ty) : Access)
+            -- bincode serialises twice (size computation, then output)
+            let gets := if v == "bincode" then gets1 ++ gets1 else gets1
+            let vs := sp.data.map fun d => match b.find d with | some e => e.val | none => ⟨0, d.ty⟩
+            match construct xs sp false vs with
+            | .error e => fail e
+            | .ok st => match st.result with
+              | .record nb => (setReg xs nr vv nb, outLine "ok" st.drops (gets ++ st.acc))
+              | _ => (xs, "machine-error no-result")
+      | _, _ => (xs, "bad-op")
+    else (xs, "bad-op")
+  | ["get", r, fi] =>
+    match r.toNat?, fi.toNat? with
+    | some reg, some fi =>
+      match getReg xs reg with
+      | none => (xs, "bad-op")
+      | some (vv, b) =>
+        match (xs.specs[vv]?).bind (fun sp => sp.data[fi]?) with
+        | none => (xs, "bad-op")
+        | some d =>
+          match call droppable xs.cap ⟨"", [.get d]⟩ { self_ := some b } with
+          | .error e => fail e
+          | .ok st => match st.result with
+            | .ref v => (xs, outLine s!"val {valStr v}" st.drops st.acc)
+            | _ => (xs, "machine-error no-result")
+    | _, _ => (xs, "bad-op")
+  | ["unpack", r] =>
+    match r.toNat? with
+    | some reg =>
+      match getReg xs reg with
+      | none => (xs, "bad-op")
+      | some (vv, b) =>
+        match xs.specs[vv]? with
+        | none => (xs, "bad-op")
+        | some sp =>
+          match call droppable xs.cap (unpackFn sp) { self_ := some b, selfGlue := some sp.data } with
+          | .error e => fail e
+          | .ok st => match st.result with
+            | .struct fs _ => (delReg xs reg, outLine s!"vals {",".intercalate (fs.map fun p => valStr p.2)}" st.drops st.acc)
+            | _ => (xs, "machine-error no-result")
+    | none => (xs, "bad-op")
+  | ["drop", r] =>
+    match r.toNat? with
+    | some reg =>
+      match getReg xs reg with
+      | none => (xs, "bad-op")
+      | some (vv, b) =>
+        match xs.specs[vv]? with
+        | none => (xs, "bad-op")
+        | some sp =>
+          match call droppable xs.cap (dropFn sp) { self_ := some b } with
+          | .error e => fail e
+          | .ok st => (delReg xs reg, outLine "ok" st.drops st.acc)
+    | none => (xs, "bad-op")
+  | ["conv", form, r, nr, vals] =>
+    match r.toNat?, nr.toNat? with
+    | some reg, some nreg =>
+      match getReg xs reg with
+      | none => (xs, "bad-op")
+      | some (vv, b) =>
+        match xs.specs[vv]?, xs.specs[vv + 1]? with
+        | some sp0, some sp =>
+          let uninit := form == "us" || form == "uo"
+          let andOut := form == "fo" || form == "uo"
+          let ds := if uninit then sp.plus.filter (fun d => !d.uninit) else sp.plus
+          let vs := (ds.zip (parseVals vals)).map fun (d, n) => (d.name, (⟨n, d.ty⟩ : Val))
+          match call droppable xs.cap (convFn sp uninit andOut) { from_ := some b, fromGlue := some sp0.data, args := [("plus", vs)] } with
+          | .error e => fail e
+          | .ok st => match st.result with
+            | .record nb => (setReg (delReg xs reg) nreg (vv + 1) nb, outLine "ok" st.drops st.acc)
+            | .struct fs (some nb) =>
+              (setReg (delReg xs reg) nreg (vv + 1) nb, outLine s!"out {",".intercalate (fs.map fun p => valStr p.2)}" st.drops st.acc)
+            | _ => (xs, "machine-error no-result")
+        | _, _ => (xs, "bad-op")
+    | _, _ => (xs, "bad-op")
+  | ["clone", r, nr] =>
+    match r.toNat?, nr.toNat? with
+    | some reg, some nreg =>
+      match getReg xs reg with
+      | none => (xs, "bad-op")
+      | some (vv, b) =>
+        match xs.specs[vv]? with
+        | none => (xs, "bad-op")
+        | some sp =>
+          let gets := sp.data.map fun d => (("get", d.offset, d.ty) : Access)
+          let vs := sp.data.map fun d => match b.find d with
+            | some e => if d.uninit then e.val else cloneVal e.val
+            | none => ⟨0, d.ty⟩
+          match construct xs sp false vs with
+          | .error e => fail e
+          | .ok st => match st.result with
+            | .record nb => (setReg xs nreg vv nb, outLine "ok" st.drops (gets ++ st.acc))
+            | _ => (xs, "machine-error no-result")
+    | _, _ => (xs, "bad-op")
+  | ["clonefrom", dst, src] =>
+    match dst.toNat?, src.toNat? with
+    | some dreg, some sreg =>
+      match getReg xs dreg, getReg xs sreg with
+      | some (dv, db), some (_, sb) =>
+        match xs.specs[dv]? with
+        | none => (xs, "bad-op")
+        | some sp =>
+          let (nb, drops, acc) := sp.data.foldl (fun (acc : Buf × List Val × List Access) d =>
+            let (cur, dr, ac) := acc
+            let sv := match sb.find d with | some e => e.val | none => ⟨0, d.ty⟩
+            let nv := if d.uninit then sv else cloneVal sv
+            let (cur', old) := cur.assign droppable d nv
+            (cur', dr ++ old, ac ++ [("get", d.offset, d.ty), ("get_mut", d.offset, d.ty)])) (db, [], [])
+          (setReg xs dreg dv nb, outLine "ok" drops acc)
+      | _, _ => (xs, "bad-op")
+    | _, _ => (xs, "bad-op")
+  | _ => (xs, "bad-op")
+
+end X
+
 structure DState where
   b : BState := {}
   built : Option Definition := none
   dead : Bool := false     -- a panic happened: the Rust side stops the history too
+  xs : X.XS := {}
 
 def infoStr (i : Info) : String :=
   s!"{i.name} {i.ty} {i.size} {i.align} {offStr i.offset} {if i.uninit then 1 else 0}"
@@ -102,6 +311,16 @@ def dstep (s : DState) (line : String) : DState × String :=
   match line.trimAscii.toString.splitOn " " with
   | "reset" :: _ => ({}, "--")
   | "vec" :: toks => (s, V.run toks)
+  | ["xmod", extra] =>
+    match s.built, extra.toNat? with
+    | some d, some ex =>
+      match d.maxSize with
+      | some ms => ({ s with xs := { specs := Gen.specs d, cap := ms + ex, align := d.maxTypeAlign, regs := [] } }, "ok")
+      | none => (s, "panic")
+    | _, _ => (s, "bad-op")
+  | "x" :: toks =>
+    let (xs, out) := X.run s.xs toks
+    ({ s with xs := xs }, out)
   | cmd =>
     if s.dead then (s, "dead") else
     match cmd with
